@@ -1,5 +1,7 @@
 import PyGam.Proofs.Expectile
 import PyGam.Proofs.ExpectileSearch
+import PyGam.Proofs.Dists
+import PyGam.Gen.Formulas
 /-!
 # C18 — ExpectileGAM fits the requested expectile; fit_quantile reaches its quantile
 
@@ -363,5 +365,61 @@ example : (fitQuantileW (α := ℚ) (interceptModelFit 0 5 (fun i => (i : ℚ)) 
 /-- and `52/25` does balance the weighted residuals at ⅞: `⅞·(1·(3−52/25) + 1·(4−52/25)) = ⅛·(9·52/25 + 27/25 + 2/25)` -/
 example : balance (7/8 : ℚ) 5 (fun i => if i = 0 then 9 else 1) (fun i => (i : ℚ)) (fun _ => 52/25) = 0 := by
   decide +kernel
+
+/-! ### tie to the source by translation of the formulas (`gen_formula_*`)
+
+`Gen/Formulas.lean` is regenerated on every run from the abstract syntax tree of `pygam/pygam.py`: `ExpectileGAM._W`, one
+diagonal entry, with `self.link.gradient(·, self.distribution)`, `self.distribution.V` as function parameters and
+`self.expectile` as a parameter; `(y > mu) * e + (y <= mu) * (1 - e)` is translated with the Booleans as `0/1`. -/
+section gen_formulas
+set_option linter.unusedSectionVars false
+variable [HasLogSqrt α]
+
+/-- `ExpectileGAM._W` is `GAM._W` times the root of the model's asymmetric weight `asym` (`τ` where `y > μ`, `1 - τ`
+where `y ≤ μ`): the two masks of the source are complementary.  No property of the square root is used: this holds for
+every `HasLogSqrt` instance over a linearly ordered field. -/
+theorem gen_formula_W_expectile_asym (g V : α → α) (τ mu w y : α) :
+    Gen.W_ExpectileGAM g V τ mu w y = Gen.W_GAM g V mu w y * HasLogSqrt.sqrt (asym τ y mu) := by
+  unfold Gen.W_ExpectileGAM Gen.W_GAM asym
+  by_cases h : mu < y
+  · have h' : ¬ y ≤ mu := not_le.mpr h
+    simp [h, h']
+  · have h' : y ≤ mu := not_lt.mp h
+    simp [h, h']
+
+/-- `ExpectileGAM._W` is the square root of `weights · asym / (g'(μ)² V(μ))`.  Up to field identities and the two laws
+of the square root stated as hypotheses (`sqrt (1/x) = 1/sqrt x`; `sqrt (a b) = sqrt a · sqrt b` for `b ≥ 0`), for an
+expectile in `[0, 1]` (the constructor enforces `(0, 1)`); `gen_formula_W_expectile_real` discharges them for `ℝ`. -/
+theorem gen_formula_W_expectile
+    (hinv : ∀ x : α, HasLogSqrt.sqrt (1 / x) = 1 / HasLogSqrt.sqrt x)
+    (hmul : ∀ a b : α, 0 ≤ b → HasLogSqrt.sqrt (a * b) = HasLogSqrt.sqrt a * HasLogSqrt.sqrt b)
+    (g V : α → α) (τ mu w y : α) (h0 : 0 ≤ τ) (h1 : τ ≤ 1) :
+    Gen.W_ExpectileGAM g V τ mu w y = HasLogSqrt.sqrt (w * asym τ y mu / (g mu * g mu * V mu)) := by
+  have ha : 0 ≤ asym τ y mu := by
+    unfold asym; split
+    · exact h0
+    · linarith
+  rw [gen_formula_W_expectile_asym, Gen.W_GAM, ← hinv, ← hmul _ _ ha]
+  congr 1
+  simp only [mul_inv_rev, inv_inv, div_eq_mul_inv]
+  ring
+
+/-- Normal distribution, identity link (`gradient = 1`, `V = 1`, what `ExpectileGAM` fixes): the diagonal of `_W` is the
+root of the model's `expWeight` -/
+theorem gen_formula_W_expectile_normal
+    (hinv : ∀ x : α, HasLogSqrt.sqrt (1 / x) = 1 / HasLogSqrt.sqrt x)
+    (hmul : ∀ a b : α, 0 ≤ b → HasLogSqrt.sqrt (a * b) = HasLogSqrt.sqrt a * HasLogSqrt.sqrt b)
+    (τ : α) (h0 : 0 ≤ τ) (h1 : τ ≤ 1) (w y mu : Nat → α) (i : Nat) :
+    Gen.W_ExpectileGAM (fun _ => 1) (fun _ => 1) τ (mu i) (w i) (y i) = HasLogSqrt.sqrt (expWeight τ w y mu i) := by
+  rw [gen_formula_W_expectile hinv hmul _ _ _ _ _ _ h0 h1]
+  simp [expWeight]
+
+/-- over `ℝ` (`Real.sqrt`) both laws hold, so the tie is unconditional there -/
+theorem gen_formula_W_expectile_real (τ : ℝ) (h0 : 0 ≤ τ) (h1 : τ ≤ 1) (w y mu : Nat → ℝ) (i : Nat) :
+    Gen.W_ExpectileGAM (fun _ => 1) (fun _ => 1) τ (mu i) (w i) (y i) = Real.sqrt (expWeight τ w y mu i) :=
+  gen_formula_W_expectile_normal (fun x => by simp [one_div, Real.sqrt_inv])
+    (fun a b hb => by simpa using Real.sqrt_mul' a hb) τ h0 h1 w y mu i
+
+end gen_formulas
 
 end PyGam.C18
